@@ -1,0 +1,35 @@
+//go:build verif
+
+package dec
+
+// Decoder schema (property C12), instantiated mechanically by `govc gen-decoders`: a decoder returns nil only if
+// the validating constructor, applied to the decoded fields, returned a nil error. Constructors marked
+// "assumed / purefn" are only assumed to be deterministic functions of their arguments.
+
+//@ func (*Statement).UnmarshalCBOR
+//@   property C12
+//@   let dto = as(res(serde.UnmarshalCBOR(data), 0), *statementDTO)
+//@   ensures err == nil ==> res(NewStatement(dto.N0, dto.K, dto.X, dto.D, dto.S), 1) == nil
+
+//@ func (*Commitment).UnmarshalCBOR
+//@   property C12
+//@   let dto = as(res(serde.UnmarshalCBOR(data), 0), *commitmentDTO)
+//@   ensures err == nil ==> res(NewCommitment(dto.A, dto.B, dto.C), 1) == nil
+
+//@ func (*Response).UnmarshalCBOR
+//@   property C12
+//@   let dto = as(res(serde.UnmarshalCBOR(data), 0), *responseDTO)
+//@   ensures err == nil ==> res(NewResponse(dto.Z, dto.W, dto.Nu), 1) == nil
+
+//@ func NewCommitment
+//@   assumed
+//@   purefn
+
+//@ func NewResponse
+//@   assumed
+//@   purefn
+
+//@ func NewStatement
+//@   assumed
+//@   purefn
+
